@@ -14,6 +14,7 @@ import (
 	"os"
 	"path/filepath"
 	"sort"
+	"strconv"
 	"strings"
 	"time"
 	"unicode"
@@ -381,7 +382,15 @@ func NewProc(repo string) *Proc {
 	so, se := &bytes.Buffer{}, &bytes.Buffer{}
 	sess.SetStdout(NopCloser{so})
 	sess.SetStderr(NopCloser{se})
-	tx, err := query.NewTransaction(ctx, file.DefaultWaitTimeout, file.DefaultRetryDelay, sess)
+	// VERIF_WAIT_TIMEOUT (seconds): how long an in-process transaction waits for a lock.  No in-process scenario needs a
+	// long wait; a changed csvq that blocks on its own locks then costs seconds per statement instead of ten.
+	wait := file.DefaultWaitTimeout
+	if v := os.Getenv("VERIF_WAIT_TIMEOUT"); v != "" {
+		if f, e := strconv.ParseFloat(v, 64); e == nil && f > 0 {
+			wait = time.Duration(f * float64(time.Second))
+		}
+	}
+	tx, err := query.NewTransaction(ctx, wait, file.DefaultRetryDelay, sess)
 	if err != nil {
 		panic(err)
 	}
